@@ -55,6 +55,9 @@ def worker_main(pid: str, tier: str, seed: int, shard: int, nshards: int, out_pa
 
     warnings.simplefilter("error", RuntimeWarning)
     prop = load_prop(pid)
+    import asyncstdlib
+
+    lib_root = os.path.dirname(os.path.abspath(asyncstdlib.__file__))
     reach = None
     try:
         from . import reach as reach_mod
@@ -79,7 +82,17 @@ def worker_main(pid: str, tier: str, seed: int, shard: int, nshards: int, out_pa
         except loop.BudgetExceeded:
             inconclusive.append(f"step budget exceeded in {json.dumps(jsonable(case))[:200]}")
             continue
-        except Exception:  # noqa: BLE001 - a harness bug must not look like a verdict
+        except Exception as exc:  # noqa: BLE001
+            if _through_library(exc, lib_root):
+                # an exception the scenario does not provide for, raised by or passing through library code
+                # (the unchanged tree produces none): a violation, not a harness problem
+                key = f"unexpected-exception-from-library/{type(exc).__name__}"
+                vcount[key] += 1
+                viols.setdefault(key, {"key": key, "msg": f"{type(exc).__name__}: {exc} :: " + traceback.format_exc()[-500:],
+                                       "case": jsonable(case), "detail": None})
+                evaluations += 1
+                continue
+            # a harness bug must not look like a verdict
             inconclusive.append("harness error: " + traceback.format_exc()[-600:])
             if len(inconclusive) > 20:
                 break
@@ -120,6 +133,15 @@ def worker_main(pid: str, tier: str, seed: int, shard: int, nshards: int, out_pa
     sys.stdout.flush()
     sys.stderr.flush()
     os._exit(0)
+
+
+def _through_library(exc: BaseException, lib_root: str) -> bool:
+    tb = exc.__traceback__
+    while tb is not None:
+        if os.path.abspath(tb.tb_frame.f_code.co_filename).startswith(lib_root):
+            return True
+        tb = tb.tb_next
+    return False
 
 
 # ---------------------------------------------------------------------------
